@@ -192,7 +192,7 @@ class MergerConfig:
             # This node may be a child of one of the registered keys.  That
             # registered key's node will match this node's parent.
             for eval_nc, eval_key in self.keys.items():
-                if node_coord.parent == eval_nc.node:
+                if node_coord.parent is eval_nc.node:
                     merge_key = eval_key
                     break
         if not merge_key and len(data.keys()) > 0:
@@ -370,8 +370,8 @@ class MergerConfig:
             return ""
 
         for rule_coord, rule_config in section.items():
-            if rule_coord.node == node_coord.node \
-                    and rule_coord.parent == node_coord.parent \
+            if rule_coord.node is node_coord.node \
+                    and rule_coord.parent is node_coord.parent \
                     and rule_coord.parentref == node_coord.parentref:
                 return str(rule_config)
 
